@@ -29,5 +29,6 @@ def check(ctx):
     c01.check_table_get(ctx)
     tablefmt.check_separators(ctx)
     tablefmt.check_filter_offsets(ctx)
+    tablefmt.check_filter_name_match(ctx)
     from . import c18 as _c18
     _c18.check_internal_key_gate(ctx)   # a block is declared corrupt on a short key only where keys carry the 8-byte tag
